@@ -279,7 +279,7 @@ func execCtx(t *testing.T, tr *vrt.Tracer, sc ctxScenario, ex *vrt.Explorer) {
 		if inflight >= 0 {
 			pending = append(pending, inflight)
 		}
-		tr.Emit(vrt.M{"ev": "quiesce", "pending": pending, "reg": f.reg(sc.Dir), "leaked": watcherGoroutines() - len(pending), "sched": ex.Trail()})
+		tr.Emit(vrt.M{"ev": "quiesce", "pending": pending, "reg": f.reg(sc.Dir), "leaked": watcherGoroutines() - len(pending), "sched": ex.Trail(), "fine": vrt.IsFine()})
 		over = true
 		mu.Unlock()
 		vrt.Uninstall()
@@ -299,6 +299,7 @@ func TestVerifCtxSync(t *testing.T) {
 	defer tr.Close()
 	budget := vrt.EnvInt("VERIF_BUDGET", 600)
 	nrand := vrt.EnvInt("VERIF_RANDOM", 200)
+	nfine := vrt.EnvInt("VERIF_FINE", nrand/2)
 	rng := rand.New(rand.NewSource(vrt.Seed())) //nolint:gosec
 	stats := map[string][3]int{}
 	vrt.ReadScenarios(func(line []byte) {
@@ -325,6 +326,14 @@ func TestVerifCtxSync(t *testing.T) {
 				execCtx(t, tr, sc, rex)
 			}
 		}
+		vrt.SetFine(true)
+		fex := &vrt.Explorer{Random: true, Rng: rng}
+		for k := 0; k < nfine; k++ {
+			fex.Begin()
+			execCtx(t, tr, sc, fex)
+			nr++
+		}
+		vrt.SetFine(false)
 		e := 0
 		if exhausted {
 			e = 1
